@@ -60,11 +60,16 @@ access(all) entitlement E2
 access(all) struct interface I1 {}
 access(all) struct interface I2 {}
 access(all) struct interface I3: I1 {}
+access(all) struct interface I4: I3 {}
 access(all) resource interface RI {}
+access(all) resource interface RI2: RI {}
+access(all) resource interface RI3: RI2 {}
 access(all) struct S: I1, I3 { access(all) let id: Int; init() { self.id = 7 } }
 access(all) struct S2: I2 { access(all) let id: Int; init() { self.id = 8 } }
 access(all) resource R: RI { access(all) let id: Int; init() { self.id = 9 } }
 access(all) resource R2 {}
+access(all) struct S3: I4 {}
+access(all) resource R3: RI3 {}
 access(all) enum En: UInt8 { access(all) case a }
 access(all) attachment At for R {}
 access(all) attachment As for S {}
